@@ -782,6 +782,11 @@ impl CxxCodeBodyTranslator {
                 writeln!(w.indented(), "goto {};", self.format_basic_block_ref(*z))?;
             }
             Terminator::Return(Operand::Void(_)) => writeln!(w, "return;")?,
+            // untyped empty list cannot be spelled as C++ expression, and there is nothing to evaluate
+            Terminator::Return(Operand::Constant(tir::Constant {
+                value: tir::ConstantValue::EmptyList,
+                ..
+            })) if self.return_kind == CxxCodeReturnKind::Void => writeln!(w, "return;")?,
             Terminator::Return(x) => match self.return_kind {
                 CxxCodeReturnKind::Value => {
                     writeln!(w, "return {};", self.format_operand(x))?;
